@@ -50,11 +50,11 @@ KC_PK_ENSURES
 #endif
 
 #ifdef LOG_KEYAGGCOEF_INTERNAL
-int g_kci_n; const unsigned char *g_kci_hash_p; const secp256k1_ge *g_kci_second_p; secp256k1_ge *g_kci_pk_p; secp256k1_scalar g_kci_r;
+int g_kci_n; size_t g_kci_i /* ghost index < 32, never assigned */; unsigned char g_kci_hash_b; secp256k1_ge g_kci_second, g_kci_pk; secp256k1_scalar g_kci_r;   /* CONTENT of what the coefficient was asked about */
 static void secp256k1_musig_keyaggcoef_internal(const secp256k1_hash_ctx *hash_ctx, secp256k1_scalar *r, const unsigned char *pks_hash, secp256k1_ge *pk, const secp256k1_ge *second_pk)
-__CPROVER_requires(hash_ctx != NULL && __CPROVER_w_ok(r, sizeof(*r)) && __CPROVER_r_ok(pks_hash, 32) && __CPROVER_rw_ok(pk, sizeof(*pk)) && __CPROVER_r_ok(second_pk, sizeof(*second_pk)) && ge_ok(pk) && !pk->infinity)
-__CPROVER_assigns(*r, *pk, g_kci_n, g_kci_hash_p, g_kci_second_p, g_kci_pk_p, g_kci_r)
-__CPROVER_ensures(g_kci_n == __CPROVER_old(g_kci_n) + 1 && g_kci_hash_p == pks_hash && g_kci_second_p == second_pk && g_kci_pk_p == pk && SC_EQ(g_kci_r, *r))
+__CPROVER_requires(hash_ctx != NULL && __CPROVER_w_ok(r, sizeof(*r)) && __CPROVER_r_ok(pks_hash, 32) && __CPROVER_rw_ok(pk, sizeof(*pk)) && __CPROVER_r_ok(second_pk, sizeof(*second_pk)) && ge_ok(pk) && !pk->infinity && g_kci_i < 32)
+__CPROVER_assigns(*r, *pk, g_kci_n, g_kci_hash_b, g_kci_second, g_kci_pk, g_kci_r)
+__CPROVER_ensures(g_kci_n == __CPROVER_old(g_kci_n) + 1 && g_kci_hash_b == pks_hash[g_kci_i] && GE_EQ(g_kci_second, *second_pk) && GE_EQ_OLD(g_kci_pk, *pk) && SC_EQ(g_kci_r, *r))
 __CPROVER_ensures(scalar_ok(r))
 KC_PK_ENSURES
 ;
